@@ -16,6 +16,11 @@ def install(I):
     M["__getitem__"] = getitem
     M["__setitem__"] = setitem
     M["__delitem__"] = delitem
+    # constants of dpkt (values from dpkt 1.9.8's source; RFC 793 flag bits, IANA protocol numbers, IEEE ethertypes)
+    for k, v in {"tcp.TH_FIN": 1, "tcp.TH_SYN": 2, "tcp.TH_RST": 4, "tcp.TH_PUSH": 8, "tcp.TH_ACK": 16, "tcp.TH_URG": 32, "tcp.TH_ECE": 64, "tcp.TH_CWR": 128,
+                 "ip.IP_PROTO_TCP": 6, "ip.IP_PROTO_UDP": 17, "ip.IP_PROTO_ICMP": 1, "ip.IP_PROTO_IP6": 41, "ip.IP_PROTO_ICMP6": 58,
+                 "ethernet.ETH_TYPE_IP": 0x0800, "ethernet.ETH_TYPE_IP6": 0x86DD, "ethernet.ETH_TYPE_ARP": 0x0806, "ethernet.ETH_TYPE_8021Q": 0x8100}.items():
+        M["dpkt." + k] = v
     b = "builtins."
     M[b + "len"] = m_len
     M[b + "range"] = m_range
